@@ -98,6 +98,10 @@ def headerFrames (sid : Nat) (endStream : Bool) : List Bytes → List SFrame
   | [] => []
   | f :: rest => .headers sid endStream rest.isEmpty f :: contFrames sid rest
 
+/-- the `const maxFrameSize = 16384` of `splitHeaderBlock` (server side: "the minimum MAX_FRAME_SIZE
+that all peers must support"); the client uses the peer's advertised SETTINGS_MAX_FRAME_SIZE. -/
+def serverHdrFragmentMax : Nat := 16384
+
 /-- `writeHeaders(streamID, endStream, maxFrameSize, hdrs)` / `splitHeaderBlock(…, writeHeaderBlock)`. -/
 def writeHeaderBlock (sid : Nat) (endStream : Bool) (max : Nat) (hb : Bytes) : List SFrame :=
   headerFrames sid endStream (splitBlock max hb)
